@@ -249,7 +249,7 @@ theorem pplain_nil_of_total (bs : List PBlk) (h : ptotal bs = 0) : pplain bs = [
     exact ih h2
 
 theorem patchLoop_zero (fuel bufSize : Nat) (fill : UInt8) (blockMax : Nat) (base : Bytes) (n : Nat) (rd : Rd) (bp : Nat) (w : Bytes) :
-    patchLoop fuel bufSize fill blockMax base false n rd bp 0 w = .ok (.ok, w) := by
+    patchLoop fuel bufSize 4096 fill blockMax base false n rd bp 0 w = .ok (.ok, w) := by
   cases n with
   | zero => rw [patchLoop.eq_1, if_pos rfl]
   | succ n => rw [patchLoop.eq_2, if_pos rfl]
@@ -258,7 +258,7 @@ theorem patchBlock_spec (fuel bufSize : Nat) (fill : UInt8) (blockMax : Nat)
     (file base : Bytes) (b : PBlk) (pos bpos targetSize : Nat) (rest brest w : Bytes)
     (hd : file.drop pos = encPBlk b ++ rest) (hbd : base.drop bpos = b.ref ++ brest)
     (hwf : b.wf fuel bufSize fill blockMax) (hbm : blockMax < 4294967296) (ht : b.data.length ≤ targetSize) :
-    patchBlock fuel bufSize fill blockMax base false ⟨file, pos⟩ bpos targetSize w =
+    patchBlock fuel bufSize 4096 fill blockMax base false ⟨file, pos⟩ bpos targetSize w =
       .ok (.next ⟨file, pos + (encPBlk b).length⟩ (bpos + b.ref.length) (targetSize - b.data.length) (w ++ b.data)) := by
   obtain ⟨hdl, hrl, hpl, hcrc, hlaw⟩ := hwf
   obtain ⟨hlen, f0, f1, f2, f3⟩ := hdr_fields b.payload.length b.data.length b.ref.length b.crc
@@ -287,7 +287,7 @@ theorem patchLoop_spec (fuel bufSize : Nat) (fill : UInt8) (blockMax : Nat)
     ∀ (bs : List PBlk) (n pos bpos : Nat) (rest brest w : Bytes),
       file.drop pos = bs.flatMap encPBlk ++ rest → base.drop bpos = pbase bs ++ brest → bs.length ≤ n →
       (∀ b ∈ bs, b.wf fuel bufSize fill blockMax) →
-      patchLoop fuel bufSize fill blockMax base false n ⟨file, pos⟩ bpos (ptotal bs) w = .ok (.ok, w ++ pplain bs) := by
+      patchLoop fuel bufSize 4096 fill blockMax base false n ⟨file, pos⟩ bpos (ptotal bs) w = .ok (.ok, w ++ pplain bs) := by
   intro bs
   induction bs with
   | nil => intro n pos bpos rest brest w _ _ _ _; simp [ptotal, pplain, patchLoop_zero]
@@ -346,7 +346,7 @@ theorem decompress_of_header (fuel bufSize : Nat) (fill : UInt8) (file hdr : Byt
     decompress fuel bufSize fill (some file) = .ok ⟨r.1, some r.2⟩ := by
   have h1 : fullRun fuel bufSize fill file.length blockMax targetSize ⟨file, 16⟩ false = .ok ⟨r.1, some r.2⟩ := by
     unfold fullRun
-    simp only [Bool.false_eq_true, ↓reduceIte, hloop]
+    simp only [Bool.false_eq_true, ↓reduceIte, hloop, wrapLoop]
   unfold decompress
   simp only [show oabheadSIZEOF = 16 from rfl, hre, oabhead_VersionHi, oabhead_VersionLo, oabhead_BlockMax,
     oabhead_TargetSize, f0, f1, f2, f3, ne_eq, not_true_eq_false, or_self, ↓reduceIte, h1]
@@ -355,13 +355,13 @@ theorem decompressIncremental_of_header (fuel bufSize : Nat) (fill : UInt8) (fil
     (blockMax targetSize : Nat) (r : Err × Bytes)
     (hre : (⟨file, 0⟩ : Rd).readExact 28 = some (hdr, ⟨file, 28⟩))
     (f0 : u32At hdr 0 = 3) (f1 : u32At hdr 4 = 2) (f2 : u32At hdr 8 = blockMax) (f4 : u32At hdr 16 = targetSize)
-    (hloop : patchLoop fuel bufSize fill (if blockMax < 16 then 16 else blockMax) base false (file.length / 16 + 1)
+    (hloop : patchLoop fuel bufSize 4096 fill (if blockMax < 16 then 16 else blockMax) base false (file.length / 16 + 1)
                ⟨file, 28⟩ 0 targetSize [] = .ok r) :
     decompressIncremental fuel bufSize fill (some file) (some base) = .ok ⟨r.1, some r.2⟩ := by
-  have h1 : incrementalLoop fuel bufSize fill file.length blockMax targetSize ⟨file, 28⟩ base false false = .ok ⟨r.1, some r.2⟩ := by
+  have h1 : incrementalLoop fuel bufSize 4096 fill file.length blockMax targetSize ⟨file, 28⟩ base false false = .ok ⟨r.1, some r.2⟩ := by
     unfold incrementalLoop
-    simp only [show patchblkSIZEOF = 16 from rfl, Bool.false_eq_true, ↓reduceIte, hloop]
-  have h2 : incrementalOpened fuel bufSize fill file (some base) false false = .ok ⟨r.1, some r.2⟩ := by
+    simp only [show patchblkSIZEOF = 16 from rfl, Bool.false_eq_true, ↓reduceIte, hloop, wrapLoop]
+  have h2 : incrementalOpened fuel bufSize 4096 fill file (some base) false false = .ok ⟨r.1, some r.2⟩ := by
     unfold incrementalOpened
     simp only [show patchheadSIZEOF = 28 from rfl, hre, patchhead_VersionHi, patchhead_VersionLo, patchhead_BlockMax,
       patchhead_TargetSize, f0, f1, f2, f4, ne_eq, not_true_eq_false, or_self, ↓reduceIte, incrementalBase, h1]
